@@ -265,10 +265,10 @@ def define(tier=None):
     # ---- reenter
     acts = [RES(1), RES(2), CAN(1), CAN(2)]
     b1q = [[RES(2)], [RES(2), Y], [T(RES(2))], [("defer", [RES(2)])], [EACH2], [RES(2), PROP(2)]]
-    space("reenter", [seqs(acts, 3, 1), ["", "y"], ["", "y", "e"], b1q, seqs([Y, SG(5), RES(1), CAN(1)], 2)], b_reenter,
+    space("reenter", [seqs(acts, 3, 1), ["", "y"], ["", "y", "e"], b1q, seqs([Y, ST(1), RES(1), CAN(1)], 2)], b_reenter,
           doc="the root resumes/cancels both the parent and (directly) the child that is still suspended under it; "
               "the child may resume/cancel its parent")
-    space("reenter+", [seqs(acts, 4, 1), ["", "y", "a"], MASKS_S, REENTER_B1, seqs([Y, SG(5), ER, RES(1), CAN(1)], 2)], b_reenter,
+    space("reenter+", [seqs(acts, 4, 1), ["", "y", "a"], MASKS_S, REENTER_B1, seqs([Y, SG(5), ER, RES(1), CAN(1), ST(1)], 2)], b_reenter,
           doc="root scripts of <=4 actions, 3x4 masks")
     # ---- nest3 / siblings
     m3 = ["", "y", "e"]
